@@ -166,6 +166,18 @@ def procExitStatus (code : Nat) : Nat :=
     start of the created threads) interleave arbitrarily.  The only shared state is the counter
     `nextThreadID`, touched by ONE atomic step (`atomic_add_U32`, fetch-and-add). -/
 
+/-- the module's function-export table (`instance->funcExports`, up to the entry with `func == NULL`):
+    name and function (a number identifying it) -/
+abbrev ExportTable := List (String × Nat)
+
+/-- the lookup loop of `wasi__threadX2Dspawn`:
+      for (; funcExport->func != NULL; funcExport++)
+          if (<comparison of funcExport->name with "wasi_thread_start">) { startFunc = funcExport->func; break; }
+    the comparison is the regenerated `Gen.WasiPath.exportNameMatches`.  `none` = `startFunc == NULL`. -/
+def lookupStart : ExportTable → Option Nat
+  | [] => none
+  | (name, f) :: rest => if Gen.WasiPath.exportNameMatches name then some f else lookupStart rest
+
 /-- progress of one thread-spawn call -/
 inductive Call where
   | init (arg : Nat)                       -- entered
